@@ -345,6 +345,7 @@ DEFAULT_PROFILE = dict(
     p_ts_bytes_default=0.0,     # K16: emitted as str, refused by the runtime
     p_multi_pos_custom=0.0,     # K8
     p_three_part_field_ref=0.0,  # K22 (swift/objc _docf)
+    p_odd_alias_name=0.0,        # alias names not in canonical Pascal case
     p_alias_of_alias=0.0,        # alias whose target is another alias
     p_ts_offset_format=0.0,      # Timestamp formats with %z (timezone-aware values)
     p_keyword_doc=0.0,           # doc lines beginning with a language keyword
@@ -978,7 +979,20 @@ class Gen:
                         anns.append(('redactor', (a.ns, a.name)))
                 elif k == 'custom' and r.random() < 0.4:
                     anns.append(('custom', (a.ns, a.name)))
-        d = AliasDef(name=self.type_name(), ns=ns.name, doc=self.doc(), type=t,
+        aname = self.type_name()
+        if self.p['p_odd_alias_name'] and r.random() < self.p['p_odd_alias_name']:
+            # names that are not in canonical Pascal case: acronyms, snake case
+            style = r.choice(['acronym', 'snake', 'upper_snake', 'mixed'])
+            if style == 'acronym':
+                aname = aname[:2].upper() + aname[2:]
+            elif style == 'snake':
+                aname = 'my_' + aname.lower()
+            elif style == 'upper_snake':
+                aname = 'MY_' + aname.upper()
+            else:
+                aname = aname[0] + '_' + aname[1:].capitalize()
+            self.m.feature('odd_alias_name_' + style)
+        d = AliasDef(name=aname, ns=ns.name, doc=self.doc(), type=t,
                      anns=[a for _, a in anns])
         ns.defs.append(d)
         self.m.feature('alias')
@@ -1128,7 +1142,7 @@ class Gen:
             if mx is not None:
                 n = min(n, mx)
             items = []
-            if t.args['item'].kind == 'map':
+            if self.m.resolve_alias(t.args['item'])[0].kind == 'map':
                 # the example grammar has no map inside a list
                 return ('list', []) if mn == 0 else (('null',) if t.nullable else None)
             for _ in range(n):
@@ -1165,11 +1179,13 @@ class Gen:
                 if at.nullable and r.random() < 0.3:
                     return ('null',)
                 return ('lit', self.literal_for(at))
-            if at.kind == 'list' and at.args['item'].kind == 'prim' and not at.args['item'].nullable:
-                ev = self.example_value(at.copy(nullable=False), depth + 1)
-                return ev
-            # alias of nullable user type / of map / of list of refs: avoid (K30 and friends)
-            return ('null',) if (t.nullable or at.nullable) else None
+            # alias of a list / map / nullable type: the value is written as for the target
+            ev = self.example_value(at, depth + 1)
+            if ev is None and (t.nullable or at.nullable):
+                return ('null',)
+            if ev is not None:
+                self.m.feature('example_through_alias_of_' + at.kind)
+            return ev
         labels = self.has_example.get((d.ns, d.name))
         if labels:
             return ('ref', r.choice(labels))
